@@ -64,6 +64,10 @@ func c09DataCmd(rng *rand.Rand, inMulti bool) []string {
 	case 17:
 		return []string{"EXPIRE", k, "100"}
 	case 18:
+		if rng.Intn(2) == 0 {
+			// a container command with an unknown subcommand or a subcommand of wrong arity: rejected at queue time too
+			return pick2(rng, [][]string{{"CLIENT", "NOSUCHSUB"}, {"CLIENT", "SETNAME"}, {"COMMAND", "NOSUCHSUB"}, {"CLIENT"}, {"CLIENT", "GETNAME", "extra"}, {"CLIENT", "SETNAME", "a", "b"}})
+		}
 		return []string{"NOSUCHCMD", k} // rejected at queue time
 	case 19:
 		return []string{"GET"} // wrong arity: rejected at queue time
